@@ -27,7 +27,7 @@ EXC_NAMES_ = sorted(['InjectedFault'] + [b.__name__ for b in (KeyError, IndexErr
 FORMS = ['convert-callable', 'convert-multi', 'convert-method', 'convert-passrow', 'convert-where', 'convertall', 'convertnumbers', 'fieldmap', 'rowmap', 'rowmapmany']
 REQUIRED = (['form:' + f for f in FORMS] + ['policy:False', 'policy:True', 'policy:inline', 'via:config', 'via:arg',
             'fail-first-row', 'fail-last-row', 'fail-consecutive', 'fail-all-rows', 'exception-surfaced-at-failing-row',
-            'inline-exception-delivered', 'errorvalue-delivered', 'row-dropped', 'generator-rows-kept-before-failure', 'rowmap:lazy-mapper-result'] +
+            'inline-exception-delivered', 'errorvalue-delivered', 'row-dropped', 'generator-rows-kept-before-failure', 'rowmap:lazy-mapper-result', 'rows-longer-than-the-header'] +
             ['exc:' + e for e in EXC_NAMES_])
 EXHAUSTIVE = {'quick': True, 'thorough': True}
 
@@ -78,6 +78,10 @@ def cases(ctx):
                                         for exc in excs:
                                             yield {'form': form, 'n': n, 'failrows': list(failrows), 'failfields': list(ff), 'policy': policy,
                                                    'via': via, 'errorvalue': ev, 'pre': pre, 'exc': exc}
+                                            if cellwise and form != 'fieldmap' and n >= 1 and n <= 4:
+                                                # rows longer than the header: the surplus cells are carried over under every policy
+                                                yield {'form': form, 'n': n, 'failrows': list(failrows), 'failfields': list(ff), 'policy': policy,
+                                                       'via': via, 'errorvalue': ev, 'pre': pre, 'exc': exc, 'long': True}
                                             if form == 'rowmap' and failrows and exc != 'StopIteration':
                                                 # the mapper may return any iterable of cells; a lazy one fails while petl builds the row
                                                 # (a StopIteration out of a lazy result just ends that iterable: Python's semantics, not a failure)
@@ -97,7 +101,7 @@ def _table(case):
             # the strict number parser raises ValueError for 'x..' cells and parses the others
             a = ('x%d' if (i in case['failrows'] and 'a' in case['failfields']) else '1%d') % i
             b = ('x%d' if (i in case['failrows'] and 'b' in case['failfields']) else '2%d') % i
-        rows.append([i, a, b])
+        rows.append([i, a, b] + (['extra%d' % i] * (1 + i % 2) if case.get('long') else []))
     return [['id', 'a', 'b']] + rows
 
 
@@ -118,6 +122,8 @@ def judge(case, ctx):
     if n and len(failrows) == n:
         ctx.seen('fail-all-rows')
     table = _table(case)
+    if case.get('long'):
+        ctx.seen('rows-longer-than-the-header')
     calls = []
     Fault = EXC_TYPES[case.get('exc', 'InjectedFault')]
     ctx.seen('exc:' + case.get('exc', 'InjectedFault'))
@@ -255,7 +261,7 @@ def judge(case, ctx):
                     row.append(int(v) if form == 'convertnumbers' else v.upper())
             if stop:
                 break
-            exp_rows.append(tuple(row))
+            exp_rows.append(tuple(row) + tuple(src[3:]))
     elif form == 'rowmap':
         hdr = ('id', 'A', 'B')
         for i in range(n):
